@@ -34,7 +34,9 @@ theorem C14.approx_names_rows (a b : Table) (h : a ≈ₜ b) :
 
 /-- closed witnesses of what `≈ₜ` tolerates and what it does not (finite, `decide`):
 null ≈ NaN; nullable int column ≈ its float widening; but -0.0 ≉ 0.0, a non-nullable int column ≉ its float version,
-an inexact widening (2^53+1 -> 2^53) is not tolerated, row order and column order matter, "" ≉ null. -/
+an inexact widening (2^53+1 -> 2^53) is not tolerated, row order and column order matter, "" ≉ null, a zero-row table
+that lost its columns or a table that gained an index column is not ≈ the original (the outputs of the recorded
+findings are rejected by the relation). -/
 theorem C14.approx_witnesses :
     ([⟨"x", [.flt 1, .null]⟩] ≈ₜ [⟨"x", [.flt 1, .nan]⟩]) ∧
     ([⟨"x", [.int 1, .null]⟩] ≈ₜ [⟨"x", [.flt 1, .nan]⟩]) ∧
@@ -44,7 +46,8 @@ theorem C14.approx_witnesses :
     ¬ ([⟨"x", [.int 1, .int 2]⟩] ≈ₜ [⟨"x", [.int 2, .int 1]⟩]) ∧
     ¬ ([⟨"x", [.int 1]⟩, ⟨"y", [.int 2]⟩] ≈ₜ [⟨"y", [.int 2]⟩, ⟨"x", [.int 1]⟩]) ∧
     ¬ ([⟨"x", [.str ""]⟩] ≈ₜ [⟨"x", [.null]⟩]) ∧
-    ¬ ([⟨"x", []⟩] ≈ₜ ([] : Table)) := by decide +kernel
+    ¬ ([⟨"x", []⟩] ≈ₜ ([] : Table)) ∧
+    ¬ ([⟨"k", [.int 5]⟩] ≈ₜ [⟨"k", [.int 5]⟩, ⟨"__index_level_0__", [.int 10]⟩]) := by decide +kernel
 
 /-- The registration invariant - every entry's transformer connects exactly the two distinct types of its key - holds
 for every registry that `initilize_transformer` can build, whatever classes are discovered and in whatever order of the
@@ -120,6 +123,14 @@ theorem C14.loop_preserves {F : Type} [DecidableEq F] (reg : Registry F) (sem : 
     (h : tfsLoop reg sem toT chain cur stale (some d) = .ok (some d')) : d'.tbl ≈ₜ d.tbl :=
   Transform.loop_preserves hp toT chain cur stale d d' h
 
+/-- `transformer_map`'s iteration order follows the iteration order of a *set* of classes and differs between processes;
+`TransformFrameworkStep.transform` iterates the dict to find the intermediate type.  The result does not depend on that
+order: two registries with the same content (equal lookups) give the same outcome. -/
+theorem C14.order_independent {F : Type} [DecidableEq F] (reg1 reg2 : Registry F) (h1 : RegInv reg1) (h2 : RegInv reg2)
+    (hl : ∀ k, lookup reg1 k = lookup reg2 k) (pa : Option F) (sem : Sem F) (fromT toT : F) (d : Option (Data F)) :
+    tfsTransform reg1 pa sem fromT toT d = tfsTransform reg2 pa sem fromT toT d :=
+  tfsTransform_order_independent h1 h2 hl pa sem fromT toT d
+
 /-- round trips: there and back again gives a table ≈ the original, of the original type -/
 theorem C14.roundtrip_preserves {F : Type} [DecidableEq F] (reg : Registry F) (hinv : RegInv reg) (pa : Option F)
     (sem : Sem F) (hp : HopPreserves sem) (hnn : NoNone sem) (a b : F) (d d1 d2 : Data F) (hd : d.ty = a)
@@ -166,9 +177,6 @@ theorem C14.tfs_flight_partial {F : Type} [DecidableEq F] (reg : Registry F) (se
 
 /-! ### the installed registry (`Gen/Transformers`, finite: `decide` is complete) -/
 
-/-- identity hops: the best possible library -/
-def C14.idSem : Sem Gen.Fw := fun _ _ tb => .ok (some tb)
-
 /-- the installed registry satisfies the registration invariant -/
 theorem C14.gen_registry_inv : RegInv Installed.reg := by decide
 
@@ -189,7 +197,7 @@ theorem C14.gen_all_pairs_connected :
 transform step whose producer is not on Arrow applies its first hop to an Arrow table - for *every* such pair -/
 theorem C14.tfs_flight_witness :
     ∀ a ∈ Installed.fws, ∀ b ∈ Installed.fws, a ≠ b →
-      (failsWith (tfsExecuteFlight Installed.reg C14.idSem Gen.paTable a b ⟨a, []⟩) .illTyped = true ↔ a ≠ Gen.paTable) := by
+      (failsWith (tfsExecuteFlight Installed.reg Installed.idSem Gen.paTable a b ⟨a, []⟩) .illTyped = true ↔ a ≠ Gen.paTable) := by
   decide
 
 /-! ### non-vacuity (tests on literals) -/
@@ -197,15 +205,15 @@ theorem C14.tfs_flight_witness :
 /-- a two-hop chain in the installed registry, applied by the loop with identity hops: result has the target type -/
 example :
     ∃ a ∈ Installed.fws, ∃ b ∈ Installed.fws, a ≠ b ∧ a ≠ Gen.paTable ∧ b ≠ Gen.paTable ∧
-      (tfsTransform Installed.reg (some Gen.paTable) C14.idSem a b (some ⟨a, [⟨"x", [.int 1, .null]⟩]⟩)).toOption.map
+      (tfsTransform Installed.reg (some Gen.paTable) Installed.idSem a b (some ⟨a, [⟨"x", [.int 1, .null]⟩]⟩)).toOption.map
         (fun o => o.map (fun d => (d.ty == b, d.tbl))) = some (some (true, [⟨"x", [.int 1, .null]⟩])) := by
   decide
 
 /-- `HopPreserves` and `NoNone` are satisfiable -/
-example : HopPreserves C14.idSem ∧ NoNone C14.idSem := by
+example : HopPreserves Installed.idSem ∧ NoNone Installed.idSem := by
   constructor
-  · intro t dir tb tb' h; simp [C14.idSem] at h; subst h; exact approx_refl _
-  · intro t dir tb h; simp [C14.idSem] at h
+  · intro t dir tb tb' h; simp [Installed.idSem] at h; subst h; exact approx_refl _
+  · intro t dir tb h; simp [Installed.idSem] at h
 
 /-- ... and a pandas-like hop (ints of a nullable column widened to floats, null -> NaN) preserves this table up to `≈ₜ`
 although it changes every cell -/
